@@ -104,7 +104,7 @@ func TestC14(t *testing.T) {
 	rep := vh.NewReport("C14", "path-bearing fields of every route (exhaustive enumeration against the real server, differential oracle)")
 	defer rep.Write()
 	names := c14Names()
-	fields := []string{"data-name", "data-rename", "data-prev", "data-rename-2nd-part", "data-prev-2nd-part", "data-source", "recovery-name", "validate-name", "partials-source", "static-get-path", "static-delete-path", "static-get-source", "static-get-rawpath"}
+	fields := []string{"data-name", "data-rename", "data-prev", "data-rename-2nd-part", "data-prev-2nd-part", "data-name-before-clean-part", "data-source", "recovery-name", "validate-name", "partials-source", "static-get-path", "static-delete-path", "static-get-source", "static-get-rawpath"}
 	var rc c14Case
 	replay := vh.ReplaySpec(&rc)
 	n := 0
@@ -163,6 +163,16 @@ func TestC14(t *testing.T) {
 							prev = x
 						}
 						ml, body := dataBody2(fmt.Sprintf("t%d", seq), ren, prev, content)
+						q.Method, q.Path, q.Body = "PUT", "/data?v=1", body
+						q.Headers["X-STS-MetaLen"] = fmt.Sprint(ml)
+						if strings.Contains(x, "|") {
+							q.Headers["X-STS-Sep"] = "|"
+						}
+					case "data-name-before-clean-part":
+						// two files in one request: the first part carries the name under test, the last one is clean
+						seq++
+						content = fmt.Sprintf("first of two %d", seq)
+						ml, body := dataBody3(x, fmt.Sprintf("clean%d", seq), content)
 						q.Method, q.Path, q.Body = "PUT", "/data?v=1", body
 						q.Headers["X-STS-MetaLen"] = fmt.Sprint(ml)
 						if strings.Contains(x, "|") {
@@ -256,7 +266,7 @@ func TestC14(t *testing.T) {
 			}
 		}
 	}
-	rep.Bound = fmt.Sprintf("%d names built from the fragments {a, .., ., empty, %%2e%%2e, a 300-character name} joined by /, //, \\ and a custom separator, with and without a leading separator, up to three fragments, placed in turn in: file name, rename target, predecessor and source of a data request (rename target and predecessor also on the second, completing part of a two-part file), file name of a data-recovery and of a poll request, source of a partials request, URL path (plain and percent-encoded) of static GET / DELETE, source of a static GET; receiver with and without a list of allowed sources; sandbox with canary files above, next to and inside the receiver's directories and in another source's directories", len(names))
+	rep.Bound = fmt.Sprintf("%d names built from the fragments {a, .., ., empty, %%2e%%2e, a 300-character name} joined by /, //, \\ and a custom separator, with and without a leading separator, up to three fragments, placed in turn in: file name, rename target, predecessor and source of a data request (rename target and predecessor also on the second, completing part of a two-part file; the file name also on the first of two files of one request), file name of a data-recovery and of a poll request, source of a partials request, URL path (plain and percent-encoded) of static GET / DELETE, source of a static GET; receiver with and without a list of allowed sources; sandbox with canary files above, next to and inside the receiver's directories and in another source's directories", len(names))
 }
 
 // dataBody2: one file in two parts; only the second part carries the rename target / predecessor.
@@ -271,9 +281,20 @@ func dataBody2(name, renamed, prev, content string) (metaLen int, body string) {
 	return len(b), string(b) + content
 }
 
+// dataBody3: two single-part files; the first one carries the name under test.
+func dataBody3(name, cleanName, content string) (metaLen int, body string) {
+	other := "clean " + content
+	meta := []map[string]interface{}{
+		{"n": name, "r": "", "p": "", "f": vh.MD5([]byte(content)), "t": "1293753600+5", "s": len(content), "b": 0, "e": len(content)},
+		{"n": cleanName, "r": "", "p": "", "f": vh.MD5([]byte(other)), "t": "1293753600+5", "s": len(other), "b": 0, "e": len(other)},
+	}
+	b, _ := json.Marshal(meta)
+	return len(b), string(b) + content + other
+}
+
 func c14Class(field string) string {
 	switch field {
-	case "data-name", "data-rename", "recovery-name":
+	case "data-name", "data-rename", "recovery-name", "data-name-before-clean-part":
 		return "data-route-names-unconfined"
 	case "data-source", "partials-source":
 		return "source-name-dotdot"
